@@ -12,6 +12,8 @@ Lines (fields separated by ` ||| `):
 * `table ||| op ; op ; …` — the table type after a sequence of Table API calls starting from `range_table`:
   `annotate x=T&y=U`, `annotate_globals g=T`, `select a,b|z=T&w=U`, `drop a,b`, `key_by a,b`, `filter`, `order_by`, `rename a=b,c=d`,
   `explode a`; answer `g=<globals struct> r=<row struct> k=<key fields>` or `none` (the front end refuses a call)
+* `tunion-reported ||| <unify 0/1> ||| pipeline ||| pipeline …` — the type `t0.union(t1, …, unify=…)` reports; `tunion-ir ||| …` — the
+  type the emitted `TableUnion` implies (`ill-typed` when its children disagree); `tjoin ||| pipeline ||| pipeline` — `l.join(r)`
 * `check ||| <type> ||| <python value>` — `checkPy` of a value against a given type (the type the real `hl.literal` reported)
 Python values: `(none) (b 1) (i 5) (f 2) (s "x") (list v…) (tuple v…) (set v…) (dict (k v)…) (struct (name v)…)`.
 -/
@@ -86,14 +88,33 @@ def applyOp (t : TType) (op : String) : Except String (Option TType) :=
   | _ => .error s!"table op {op}"
 
 open HailVerif.TableType in
-def runTable (ops : List String) : String :=
-  let rec go (t : TType) : List String → String
-    | [] => s!"g={showType (.struct (fieldsOfList t.globals))} r={showType (.struct (fieldsOfList t.row))} k={",".intercalate t.key}"
+def showTT (t : TType) : String :=
+  s!"g={showType (.struct (fieldsOfList t.globals))} r={showType (.struct (fieldsOfList t.row))} k={",".intercalate t.key}"
+
+open HailVerif.TableType in
+/-- a pipeline `range ; op ; op …` -/
+def runOps (txt : String) : Except String (Option TType) :=
+  let ops := ((txt.splitOn ";").map (·.trimAscii.toString)).filter (fun o => o != "range" && o != "")
+  let rec go (t : TType) : List String → Except String (Option TType)
+    | [] => .ok (some t)
     | op :: r => match applyOp t op with
       | .ok (some t') => go t' r
-      | .ok none => "none"
-      | .error e => s!"parse-error {e}"
+      | .ok none => .ok none
+      | .error e => .error e
   go range ops
+
+open HailVerif.TableType in
+def runTable (txt : String) : String :=
+  match runOps txt with
+  | .ok (some t) => showTT t
+  | .ok none => "none"
+  | .error e => s!"parse-error {e}"
+
+open HailVerif.TableType in
+/-- branches -> their table types (`none` if the front end refuses one of the pipelines) -/
+def runBranches (bs : List String) : Except String (Option (List TType)) := do
+  let rs ← bs.mapM runOps
+  pure (rs.mapM id)
 
 def handle (line : String) : String :=
   match line.splitOn " ||| " with
@@ -115,7 +136,29 @@ def handle (line : String) : String :=
     | .ok t, .ok pv => b2s (checkPy t pv)
     | .error e, _ => s!"parse-error type {e}"
     | _, .error e => s!"parse-error value {e}"
-  | ["table", ops] => runTable ((ops.splitOn ";").map (·.trimAscii.toString) |>.filter (· != "range"))
+  | ["table", ops] => runTable ops
+  | "tunion-reported" :: u :: branches =>
+    match runBranches branches with
+    | .ok (some ts) => match TableType.unionReported (u == "1") ts with
+      | some t => showTT t
+      | none => "none"
+    | .ok none => "none"
+    | .error e => s!"parse-error {e}"
+  | "tunion-ir" :: u :: branches =>
+    match runBranches branches with
+    | .ok (some ts) => match TableType.unionReported (u == "1") ts, TableType.unionIR (u == "1") ts with
+      | some _, some t => showTT t
+      | some _, none => "ill-typed"
+      | none, _ => "none"
+    | .ok none => "none"
+    | .error e => s!"parse-error {e}"
+  | ["tjoin", l, r] =>
+    match runBranches [l, r] with
+    | .ok (some [tl, tr]) => match TableType.join tl tr with
+      | some t => showTT t
+      | none => "none"
+    | .ok _ => "none"
+    | .error e => s!"parse-error {e}"
   | ["echo", t] => t
   | _ => "bad-op"
 
